@@ -235,7 +235,8 @@ def run(repo, rep):
     unchecked = re.findall(r"state\[i\]=malloc\([^;]*\);(?!if\(!state\[i\]\))", sg)
     if unchecked:
         rep.info("C07-e", f"{ENC}:search_grc_params", "state[i] = malloc(...) is used without a NULL test", "robustness observation (allocation failure only)")
-    rep.floor("C07-e", 5)
+    _alloc_vs_constant_stores(rep, enc, ENC)
+    rep.floor("C07-e", 6)
 
     # ---------------------------------------------------------------- f (Python side)
     wc = repo.mod("weight_compressor")
@@ -356,3 +357,121 @@ def run(repo, rep):
     from . import c15
 
     rep.run_borrowed(c15, {"C15-c": "C07-g"}, repo, only_sites=("architecture_features",))
+
+
+def _alloc_vs_constant_stores(rep, cu, rel):
+    """A block obtained with malloc(count * sizeof(T)) and then written unconditionally at a constant index k must hold at least
+    k + 1 elements for every value of the integer parameters the count depends on that can reach the function: the count is
+    evaluated (helpers such as round_up_divide inlined) at small parameter values including 0; a value is discarded when an
+    early-return guard of the function, or of every caller chain up to an exported function, excludes it."""
+    from ..cast import CEvalError, C_SIZEOF, c_eval
+
+    def top(fn):
+        b = [x for x in fn.get("inner", []) if x.get("kind") == "CompoundStmt"]
+        return b[0].get("inner", []) if b else []
+
+    def int_params(fn):
+        return [p_.get("name") for p_ in fn.get("inner", []) if p_.get("kind") == "ParmVarDecl" and (p_.get("type") or {}).get("qualType") in ("int", "int64_t", "unsigned int", "size_t", "long")]
+
+    def returns(st):
+        if st.get("kind") == "ReturnStmt":
+            return True
+        if st.get("kind") == "CompoundStmt":
+            inner = st.get("inner", [])
+            return bool(inner) and inner[-1].get("kind") == "ReturnStmt"
+        return False
+
+    def excluded_by_guard(stmts, env):
+        for st in stmts:
+            if st.get("kind") == "IfStmt" and len(st.get("inner", [])) >= 2 and returns(st["inner"][1]):
+                try:
+                    if c_eval(st["inner"][0], env, cu):
+                        return True
+                except CEvalError:
+                    pass
+        return False
+
+    def local_env(stmts, env):
+        env = dict(env)
+        for st in stmts:
+            if st.get("kind") == "DeclStmt":
+                for d in st.get("inner", []):
+                    if d.get("kind") == "VarDecl" and d.get("inner") and d.get("name") not in env:
+                        try:
+                            env[d["name"]] = c_eval(d["inner"][-1], env, cu)
+                        except CEvalError:
+                            pass
+        return env
+
+    def reaches(fname, pname, value, depth=0):
+        """can `fname` be entered with integer parameter `pname` == value? (exported function: yes unless guarded by its own early return)"""
+        fn = cu.functions[fname]
+        if excluded_by_guard(top(fn), {pname: value}):
+            return False
+        if fn.get("storageClass") != "static":
+            return True
+        if depth > 3:
+            return False
+        params = [p_.get("name") for p_ in fn.get("inner", []) if p_.get("kind") == "ParmVarDecl"]
+        k = params.index(pname)
+        for gname, g in cu.functions.items():
+            for callee, call in cu.calls(g):
+                if callee != fname or len(call.get("inner", [])) - 1 <= k:
+                    continue
+                arg = call["inner"][1 + k]
+                while arg.get("kind") in ("ImplicitCastExpr", "ParenExpr"):
+                    arg = arg["inner"][0]
+                if arg.get("kind") == "DeclRefExpr" and arg.get("referencedDecl", {}).get("kind") == "ParmVarDecl":
+                    q = arg["referencedDecl"]["name"]
+                    # the call must not sit under a guard of the caller that excludes the value
+                    idx = next((i for i, st in enumerate(top(g)) if any(x is call for x in cu.walk(st))), None)
+                    if idx is not None and not excluded_by_guard(top(g)[:idx], {q: value}) and reaches(gname, q, value, depth + 1):
+                        return True
+        return False
+
+    n = 0
+    for fname, fn in cu.functions.items():
+        stmts = top(fn)
+        allocs = {}
+        for i, st in enumerate(stmts):
+            if st.get("kind") == "BinaryOperator" and st.get("opcode") == "=":
+                lhs, rhs = st["inner"]
+                mall = [c_ for nm, c_ in cu.calls(rhs) if nm == "malloc"]
+                if lhs.get("kind") == "DeclRefExpr" and mall:
+                    allocs[lhs["referencedDecl"]["name"]] = (i, mall[0]["inner"][1])
+                if lhs.get("kind") == "ArraySubscriptExpr":
+                    base, idx = lhs["inner"]
+                    while base.get("kind") in ("ImplicitCastExpr", "ParenExpr"):
+                        base = base["inner"][0]
+                    while idx.get("kind") in ("ImplicitCastExpr", "ParenExpr"):
+                        idx = idx["inner"][0]
+                    nm = base.get("referencedDecl", {}).get("name") if base.get("kind") == "DeclRefExpr" else None
+                    if nm in allocs and idx.get("kind") == "IntegerLiteral":
+                        k = int(idx["value"])
+                        ai, size_expr = allocs[nm]
+                        et = (lhs.get("type") or {}).get("qualType")
+                        esz = C_SIZEOF.get(et)
+                        if esz is None:
+                            continue
+                        short = None
+                        pts = 0
+                        for pname in int_params(fn):
+                            for v in (0, 1, 2, 63, 64, 65):
+                                env = local_env(stmts[:ai], {pname: v})
+                                if excluded_by_guard(stmts[:i], env):
+                                    continue
+                                try:
+                                    nbytes = c_eval(size_expr, env, cu)
+                                except CEvalError:
+                                    continue
+                                pts += 1
+                                if nbytes < (k + 1) * esz and short is None and reaches(fname, pname, v):
+                                    short = (pname, v, nbytes)
+                        if pts == 0:
+                            continue
+                        n += 1
+                        rep.check(short is None, "C07-e", f"{rel}:{fname}", f"`{nm}` (malloc({cu.text(size_expr)})) holds element {k}, which is stored unconditionally, for every reachable value of the size parameters ({pts} points)",
+                                  (f"with {short[0]} == {short[1]} the block has {short[2]} bytes but `{cu.text(st)}` writes {esz} bytes at offset {k * esz}: heap overflow "
+                                   f"(reachable from an exported function without a guard; e.g. mlw_codec.encode([]))") if short else "")
+    if n < 1:
+        raise AnalysisError("no malloc'd block with an unconditional constant-index store found (expected search_palette_sections.restart_pos)")
